@@ -111,6 +111,10 @@ func (c *Coordinator) TaskCreated(ctx context.Context, task *taskmodel.Task) err
 	if err != nil {
 		return err
 	}
+	if task.Status == string(taskmodel.TaskInactive) {
+		// an inactive task does not run
+		return nil
+	}
 	// func new schedulable task
 	// catch errors from offset and last scheduled
 	if err = c.sch.Schedule(t); err != nil {
@@ -128,8 +132,8 @@ func (c *Coordinator) TaskUpdated(ctx context.Context, from, to *taskmodel.Task)
 		return err
 	}
 
-	// if disabling the task, release it before schedule update
-	if to.Status != from.Status && to.Status == string(taskmodel.TaskInactive) {
+	// an inactive task does not run, whatever else the update changes
+	if to.Status == string(taskmodel.TaskInactive) {
 		if err := c.sch.Release(sid); err != nil && err != taskmodel.ErrTaskNotClaimed {
 			return err
 		}
